@@ -7,6 +7,7 @@ import (
 	"encoding/base64"
 	"fmt"
 	"hash/fnv"
+	"sort"
 	"strings"
 
 	"pgregory.net/rapid"
@@ -344,7 +345,19 @@ func c07Build(r c07Room) c07Built {
 	if r.JoinRule != "-" {
 		add(raEv{Type: "m.room.join_rules", Sender: c07Creator, StateKey: raSK(""), Content: jobj("join_rule", jstr(r.JoinRule))})
 	}
-	for _, u := range c07Users {
+	members := append([]string{}, c07Users...)
+	var others []string
+	for u := range r.Members {
+		known := false
+		for _, k := range c07Users {
+			known = known || k == u
+		}
+		if !known {
+			others = append(others, u)
+		}
+	}
+	sort.Strings(others) // users outside the fixed cast (enumerators may bring their own), in a stable order
+	for _, u := range append(members, others...) {
 		m, ok := r.Members[u]
 		if !ok || m == "-" {
 			continue
@@ -414,7 +427,8 @@ func c07GenRoom(t *rapid.T, version string) c07Room {
 	tr := vtraits[version]
 	r := c07Room{Version: version, Members: map[string]string{}, JoinRule: "-"}
 	r.Federate = rapid.SampledFrom([]string{"", "", "true", "false"}).Draw(t, "federate")
-	if tr.Creators && rapid.Bool().Draw(t, "addCreator") {
+	// (before version 12 an additional_creators list in the create content is just unknown content)
+	if (tr.Creators && rapid.Bool().Draw(t, "addCreator")) || (!tr.Creators && rapid.IntRange(0, 3).Draw(t, "addCreatorIgnored") == 0) {
 		r.AddCreator = []string{rapid.SampledFrom([]string{c07Alice, c07Bob}).Draw(t, "addCreatorWho")}
 	}
 	if rapid.IntRange(0, 4).Draw(t, "hasPL") > 0 {
@@ -771,7 +785,7 @@ func c07EnumGeneric(size, shard, nshards int, emit func(c07Case)) {
 			for _, sMem := range c07PrevMems {
 				for _, lvl := range []int64{49, 50, 51} {
 					for _, fed := range []string{"", "true", "false"} {
-						for _, sender := range []string{c07Alice, c07Bob, c07Creator} {
+						for _, sender := range []string{c07Alice, c07Bob, c07Creator, "@dan:d.example:8448", "@eve:[2001:db8::1]:8448"} {
 							for _, hasPL := range []bool{true, false} {
 								idx++
 								if idx%nshards != shard || !c07Pick(idx, size) {
@@ -826,7 +840,13 @@ func c07GenericCase(version, kind, sMem string, lvl int64, fed, sender string, h
 	case "message-events-entry-low":
 		events = map[string]int64{"m.room.message": 49}
 	}
-	r.PL = c07PLContent(users, map[string]int64{"events_default": 50, "state_default": 50, "invite": 50, "redact": 50}, events, nil)
+	named := map[string]int64{"events_default": 50, "state_default": 50, "invite": 50, "redact": 50}
+	if strings.HasPrefix(kind, "redaction") {
+		// sending a redaction needs one level less than the redact level, so that at lvl = 49 the
+		// event may be sent and only the redaction rule itself (same server / redact level) decides
+		named["events_default"] = 49
+	}
+	r.PL = c07PLContent(users, named, events, nil)
 	if events != nil {
 		pl := r.PL
 		em := jv{K: 'o'}
